@@ -90,7 +90,8 @@ def _entries(k, gen):
                           {"sat": gen, "idx": i})
     # a file without time information covers datetime.min .. datetime.max
     p = "/data/%s_static.nc" % gen
-    out[p] = FileInfo(p, [datetime.min, datetime.max], {"sat": gen})
+    # (a user placeholder inside an optional group of the template parses to None: such attributes are kept)
+    out[p] = FileInfo(p, [datetime.min, datetime.max], {"sat": gen, "version": None})
     return out
 
 
